@@ -72,6 +72,10 @@ def cosine_similarity(
     y_pred: pd.DataFrame | pd.Series,
     y_true: pd.DataFrame | pd.Series,
 ) -> float:
-    """Calculate root mean square error between model and data."""
+    """Calculate the negative cosine similarity between model and data."""
     norm = np.linalg.norm
-    return cast(float, -np.sum(norm(y_pred, 2) * norm(y_true, 2)))
+    return cast(
+        float,
+        -np.sum(np.ravel(y_pred * y_true))
+        / (norm(np.ravel(y_pred), 2) * norm(np.ravel(y_true), 2)),
+    )
